@@ -220,7 +220,7 @@ def _cp_other_case(draw, algo):
          "init": draw(st.sampled_from(["svd", "random"])), "seed": draw(st.integers(0, 10 ** 6)),
          "n_iter": draw(st.sampled_from([0, 1, 2, 5])), "tol": draw(st.sampled_from([1e-1, 1e-9, 0]))}
     if algo == "randomised":
-        c["n_samples"] = draw(st.integers(1, 12))
+        c["n_samples"] = draw(st.integers(c["rank"] + 2, 16))
         c["n_iter"] = max(1, c["n_iter"])
     else:
         c["cons"] = draw(st.sampled_from(["non_negative", "l1_reg", "normalize", "unimodality"]))
@@ -461,7 +461,7 @@ def _nntucker_case(draw, algo, normalize):
             else "same" if rk == "same" else draw(st.sampled_from([0.5, 1.0])))
     c = {"x": x, "rank": rank, "algo": algo, "init": draw(st.sampled_from(["svd", "random"])),
          "seed": draw(st.integers(0, 10 ** 6)), "n_iter": draw(st.sampled_from([0, 1, 2, 5, 8])),
-         "tol": draw(st.sampled_from([1e-1, 1e-2, 1e-9])), "normalize": normalize}
+         "tol": draw(st.sampled_from([3e-1, 1e-1, 1e-2, 1e-9])), "normalize": normalize}
     if algo == "hals":
         c["alg"] = draw(st.sampled_from(["fista", "active_set"]))
         c["n_iter"] = min(c["n_iter"], 5)
@@ -527,7 +527,9 @@ def _tt_rankspec(draw, nd, hi=5):
 
 
 def _tt_expected(shape, req):
-    """sequential clipping of the requested bond ranks by the unfolding sizes (independent of the library)"""
+    """sequential clipping of the requested bond ranks by the unfolding sizes (independent of the library).
+    `req` may be the raw request or the validator's output v (v_{k+1} = min(req_k n_k, ncol, req_{k+1})): because the
+    running rank r_k <= req_k, min(r_k n_k, ncol, v_{k+1}) = min(r_k n_k, ncol, req_{k+1}), so both give the same chain."""
     r = [1]
     for k in range(len(shape) - 1):
         n_row = r[k] * shape[k]
@@ -870,7 +872,7 @@ def subchecks(tier):
     S = []
     for algo, q in (("parafac", 150), ("nn_mu", 120), ("nn_hals", 80)):
         S.append(SubCheck(f"{algo}/plain", _cp_case(algo, False), o_cp, quick=q, thorough=q * 10, discard_exc=LIN))
-        S.append(SubCheck(f"{algo}/normalized", _cp_case(algo, True, iters=(1, 2, 5, 8), tols=(1e-1, 1e-2, 1e-9, 0)), o_cp,
+        S.append(SubCheck(f"{algo}/normalized", _cp_case(algo, True, iters=(1, 2, 5, 8), tols=(3e-1, 1e-1, 1e-2, 1e-9, 0)), o_cp,
                           quick=q + 50, thorough=(q + 50) * 10, discard_exc=LIN))
         S.append(SubCheck(f"{algo}/normalized/iter0", _cp_case(algo, True, iters=(0,), inits=("svd", "random")), o_cp,
                           quick=60, thorough=400, discard_exc=LIN))
